@@ -26,13 +26,22 @@ open RotoV.TraceSpec
 
 /-! ### T1 — order_spec: the clauses of the statement, as theorems about `evalExpr` -/
 
+/-- the host calls the operator itself makes once both operands are there: none, except for
+    `==` / `!=` on two values of a registered host type (the type's equality, once) -/
+def opCalls (op : BinOp) (a b : Val) : Trace :=
+  match binopEv op a b with
+  | some (t, _) => t
+  | none => []
+
 /-- Operands of a strict binary operator: the left operand's calls, then (only
     if the left ended normally) the right operand's calls, evaluated in the
-    environment the left operand left behind. The operator itself makes no call. -/
+    environment the left operand left behind, then (only if both ended normally) the call the
+    operator itself stands for (`opCalls`: nothing for operands of primitive type). -/
 theorem operands_left_to_right (fns : List FnDef) (n : Nat) (env : Env) (op : BinOp) (l r : Expr) :
     (evalExpr fns (n + 1) env (.bin op l r)).tr
       = (evalExpr fns n env l).tr
-        ++ (evalExpr fns n env l).after (fun p => (evalExpr fns n p.1 r).tr) := by
+        ++ (evalExpr fns n env l).after (fun p => (evalExpr fns n p.1 r).tr
+            ++ (evalExpr fns n p.1 r).after (fun q => opCalls op p.2 q.2)) := by
   simp only [evalExpr, bind_eq, R.bind_tr]
   congr 1
   unfold R.after
@@ -40,7 +49,96 @@ theorem operands_left_to_right (fns : List FnDef) (n : Nat) (env : Env) (op : Bi
   rename_i p
   cases (evalExpr fns n p.1 r).out <;> simp
   rename_i q
-  cases binop op p.2 q.2 <;> simp [pure_eq, R.ok, R.stuck]
+  unfold opCalls
+  cases binopEv op p.2 q.2 <;> simp [pure_eq, R.ok, R.stuck, R.bind, R.emits]
+
+/-- An operator on operands of primitive type makes no call of its own … -/
+theorem operator_on_primitives_makes_no_call (op : BinOp) (a b : Val) (h : ∀ x y, ¬ (a = .tok x ∧ b = .tok y)) :
+    opCalls op a b = [] := by
+  unfold opCalls binopEv
+  cases a <;> cases b <;> simp_all <;> cases binop op _ _ <;> simp
+
+/-- … and **`==` / `!=` on two values of the registered host type call the type's equality
+    exactly once, after both operands**: the calls of `l == r` are those of `l`, those of `r`,
+    then one call of the equality on the two values. -/
+theorem eq_on_host_type_calls_after_operands (fns : List FnDef) (n : Nat) (env env1 env2 : Env) (op : BinOp) (l r : Expr)
+    (t1 t2 : Trace) (x y : Int) (hop : op = .eq ∨ op = .ne)
+    (hl : (evalExpr fns n env l).yields t1 (env1, .tok x)) (hr : (evalExpr fns n env1 r).yields t2 (env2, .tok y)) :
+    (evalExpr fns (n + 1) env (.bin op l r)).yields (t1 ++ t2 ++ [⟨fnEq, [.tok x, .tok y]⟩])
+      (env2, .bool (if op = .eq then decide (x = y) else decide (x ≠ y))) := by
+  simp only [evalExpr, bind_eq, R.bind_yields hl, R.bind_yields hr]
+  rcases hop with rfl | rfl <;> simp [binopEv, pure_eq, R.ok, R.yields, R.bind, R.emits]
+
+/-! #### f-string parts, and the `to_string` call the compiler inserts for a part of a host type -/
+
+/-- the host calls converting the value of a part makes: the type's `to_string` for a value of
+    the registered host type, nothing for a primitive -/
+def partCalls (v : Val) : Trace :=
+  match render v with
+  | some (t, _) => t
+  | none => []
+
+/-- F-string parts run left to right, and **the conversion of a part — for a host type an
+    implicit call of its `to_string` — happens right after the part's own evaluation and before
+    the next part runs**: the calls of `{e}rest` are those of `e`, then (only if `e` ended
+    normally) the conversion's, then those of the remaining parts in the environment `e` left. -/
+theorem fstring_parts_left_to_right (fns : List FnDef) (n : Nat) (env : Env) (e : Expr) (rest : Parts) :
+    (evalParts fns (n + 1) env (.expr e rest)).tr
+      = (evalExpr fns n env e).tr
+        ++ (evalExpr fns n env e).after (fun p => partCalls p.2
+            ++ (if (render p.2).isSome then (evalParts fns n p.1 rest).tr else [])) := by
+  simp only [evalParts, bind_eq, R.bind_tr]
+  congr 1
+  unfold R.after
+  cases (evalExpr fns n env e).out <;> simp
+  rename_i p
+  unfold partCalls
+  cases render p.2 <;> simp [R.stuck, R.bind_tr, R.emits, R.after]
+  cases (evalParts fns n p.1 rest).out <;> simp [pure_eq, R.ok]
+
+/-- a literal part makes no call -/
+theorem fstring_literal_part (fns : List FnDef) (n : Nat) (env : Env) (s : String) (rest : Parts) :
+    (evalParts fns (n + 1) env (.str s rest)).tr = (evalParts fns n env rest).tr := by
+  simp only [evalParts, bind_eq, R.bind_tr]
+  unfold R.after
+  cases (evalParts fns n env rest).out <;> simp [pure_eq, R.ok]
+
+/-- **The implicit `to_string` call of a part of the host type sits between that part and the
+    next one**, with the part's value as its argument, and its text goes where the part stands. -/
+theorem fstring_implicit_call_at_its_part (fns : List FnDef) (n : Nat) (env env1 env2 : Env) (e : Expr) (rest : Parts)
+    (t1 t2 : Trace) (x : Int) (s : String)
+    (he : (evalExpr fns n env e).yields t1 (env1, .tok x)) (hr : (evalParts fns n env1 rest).yields t2 (env2, s)) :
+    (evalParts fns (n + 1) env (.expr e rest)).yields (t1 ++ [⟨fnToString, [.tok x]⟩] ++ t2) (env2, tokText x ++ s) := by
+  simp only [evalParts, bind_eq, R.bind_yields he, render]
+  obtain ⟨h1, h2⟩ := hr
+  simp [R.bind, R.emits, h1, h2, pure_eq, R.ok, R.yields]
+
+/-- a part of primitive type is converted without a host call -/
+theorem fstring_primitive_part_no_call (fns : List FnDef) (n : Nat) (env env1 env2 : Env) (e : Expr) (rest : Parts)
+    (t1 t2 : Trace) (v : Val) (sv s : String) (hv : display v = some sv) (hnt : ∀ x, v ≠ .tok x)
+    (he : (evalExpr fns n env e).yields t1 (env1, v)) (hr : (evalParts fns n env1 rest).yields t2 (env2, s)) :
+    (evalParts fns (n + 1) env (.expr e rest)).yields (t1 ++ t2) (env2, sv ++ s) := by
+  have hrd : render v = some ([], sv) := by
+    cases v <;> simp_all [render]
+  simp only [evalParts, bind_eq, R.bind_yields he, hrd]
+  obtain ⟨h1, h2⟩ := hr
+  simp [R.bind, R.emits, h1, h2, pure_eq, R.ok, R.yields]
+
+/-- a part that leaves the function is not converted, and no later part runs -/
+theorem fstring_part_leaves (fns : List FnDef) (n : Nat) (env : Env) (e : Expr) (rest : Parts) (t : Trace) (v : Val)
+    (he : (evalExpr fns n env e).leaves t v) :
+    (evalParts fns (n + 1) env (.expr e rest)).leaves t v := by
+  simp only [evalParts, bind_eq, R.bind_leaves he]
+  simp [R.leaves]
+
+/-- a later part that leaves the function does so after the earlier part's `to_string` call -/
+theorem fstring_call_before_later_part_leaves (fns : List FnDef) (n : Nat) (env env1 : Env) (e : Expr) (rest : Parts)
+    (t1 t2 : Trace) (x : Int) (v : Val)
+    (he : (evalExpr fns n env e).yields t1 (env1, .tok x)) (hr : (evalParts fns n env1 rest).leaves t2 v) :
+    (evalParts fns (n + 1) env (.expr e rest)).leaves (t1 ++ [⟨fnToString, [.tok x]⟩] ++ t2) v := by
+  simp only [evalParts, bind_eq, R.bind_yields he, render]
+  obtain ⟨h1, h2⟩ := hr
+  simp [R.bind, R.emits, h1, h2, R.leaves]
 
 /-- Arguments (a method's receiver is the first of them): first argument first. -/
 theorem arguments_left_to_right (fns : List FnDef) (n : Nat) (env : Env) (e : Expr) (es : Exprs) :
@@ -687,6 +785,32 @@ example : (run demoProg 40 [.int 5]).result ≠ .fuel := by decide
 -- lowerS_run_partial: `run` on the two-function program above
 example : (run demoProg 40 [.int 5]).result = .ok (.int 12) := by decide
 example : demoProg.getLast?.isSome = true := by decide
+-- implicit host calls: `f"{tok(1, 4)}-{emit(2, 9)}{tok(3, 5)}"` — every `to_string` right after its part
+def tokE (k v : Int) : Expr := .host 8 (.cons (.lit (.int k)) (.cons (.lit (.int v)) .nil))
+def demoFStr : Parts := .expr (tokE 1 4) (.str "-" (.expr (emitI 2 9) (.expr (tokE 3 5) .nil)))
+-- (strings do not reduce in the kernel: the example states the call sequence only)
+example : (evalParts [] 9 [] demoFStr).tr.map (·.fn) = [8, 9, 0, 8, 9] := by decide
+example : ((evalParts [] 9 [] demoFStr).tr.map (·.args))
+    = [[.int 1, .int 4], [.tok 4], [.int 2, .int 9], [.int 3, .int 5], [.tok 5]] := by decide
+-- fstring_implicit_call_at_its_part / fstring_primitive_part_no_call: their hypotheses are met
+example : (evalExpr [] 9 [] (tokE 1 4)).yields [⟨8, [.int 1, .int 4]⟩] ([], .tok 4) := by decide
+example : (evalExpr [] 9 [] (emitI 2 9)).yields [⟨0, [.int 2, .int 9]⟩] ([], .int 9) := by decide
+example : ∃ sv, display (.int 9) = some sv := ⟨_, rfl⟩
+-- fstring_part_leaves / fstring_call_before_later_part_leaves
+example : (evalExpr [] 9 [] (.ret (emitI 1 4))).leaves [⟨0, [.int 1, .int 4]⟩] (.int 4) := by decide
+example : ((evalParts [] 9 [] (.expr (tokE 1 4) (.expr (.ret (emitI 2 7)) (.expr (tokE 3 5) .nil)))).tr.map (·.fn)) = [8, 9, 0] := by decide
+-- eq_on_host_type_calls_after_operands: `tok(1, 4) != tok(2, 9)`
+example : (evalExpr [] 9 [] (.bin .ne (tokE 1 4) (tokE 2 9))).yields
+    [⟨8, [.int 1, .int 4]⟩, ⟨8, [.int 2, .int 9]⟩, ⟨fnEq, [.tok 4, .tok 9]⟩] ([], .bool true) := by decide
+-- operator_on_primitives_makes_no_call
+example : opCalls .eq (.int 3) (.int 3) = [] ∧ opCalls .eq (.tok 3) (.tok 3) = [⟨fnEq, [.tok 3, .tok 3]⟩] := by decide
+-- T2 on a function with implicit calls: `{ let x1: Tok = tok(1, x0); if x1 == tok(2, 4) { … }; f"{x1}{emit(3, x0)}{tok(4, 5)}" }`
+def demoFn8 : FnDef :=
+  ⟨[0], .let_ 1 (.host 8 (.cons (.lit (.int 1)) (.cons (.var 0) .nil)))
+    (.stmt (.if1 (.bin .eq (.var 1) (tokE 2 4)) (.stmt (emitI 5 0) .nil))
+      (.last (.fstr (.expr (.var 1) (.expr (emitVar 3 0) (.expr (tokE 4 5) .nil))))))⟩
+example : (lowerFn demoFn8).isSome = true := by decide
+example : ((evalBlock [] 40 [(0, .int 4)] demoFn8.body).tr.map (·.fn)) = [8, 8, 11, 0, 9, 0, 8, 9] := by decide
 end nonvacuity
 
 end RotoV.C08
